@@ -58,6 +58,14 @@ def make(rng, name, node=False, with_starts=None, with_ignore=None, with_cons=No
         if "" not in G0:
             G0 = nx.relabel_nodes(G0, {x: ""}, copy=True)
             routes = [["" if v == x else v for v in r] for r in routes]
+    if rng.random() < 0.08:
+        # node names that mimic names the library derives internally (auxiliary nodes of the min-cost-flow helper, synthetic
+        # source/sink, node-expansion suffixes, condensation ids): legal strings, no helper may confuse them with its own
+        import gen
+        H = gen.mimic_names(rng, G0, 1.0)
+        mp = dict(zip(G0.nodes(), H.nodes()))
+        if len(set(mp.values())) == len(mp):
+            G0 = H; routes = [[mp[v] for v in r] for r in routes]
     is_int = True if cyclic else (rng.random() < 0.7)
     scale = 1 if is_int else rng.choice([0.5, 0.25, 1.5])
     ws = [rng.choice([1, 2, 3, 4]) * scale for _ in routes]
